@@ -199,17 +199,28 @@ theorem schedEq_pushFrames {s t : VmState} (h : SchedEq s t) (frs : List Frame)
         · exact hfr f hf a hfa)
       (fun a ha => reach_upv ha) (fun a ha => reach_guard' ha))
 
-/-- the epilogue of `run_function`: drop the frame, pop the result -/
-theorem schedEq_epilogue {s t : VmState} (h : SchedEq s t) :
-    SchedEq { s with frames := s.frames.dropLast, stack := s.stack.pop.1 }
-            { t with frames := t.frames.dropLast, stack := t.stack.pop.1 } :=
+/-- the epilogue of `run_function`: pop the call stack back to the entry depth, pop the result -/
+theorem schedEq_epilogue {s t : VmState} (h : SchedEq s t) (n : Nat) :
+    SchedEq { s with frames := s.frames.take n, stack := s.stack.pop.1 }
+            { t with frames := t.frames.take n, stack := t.stack.pop.1 } :=
   schedEq_reroot h rfl rfl rfl rfl
     (by show t.stack.pop.1 = s.stack.pop.1; rw [h.core.obs.stack]) h.core.obs.globals
-    (by show t.frames.dropLast = s.frames.dropLast; rw [h.core.obs.frames])
+    (by show t.frames.take n = s.frames.take n; rw [h.core.obs.frames])
     h.core.obs.openUpvalues h.core.obs.guards h.core.remaining h.core.dispatches h.core.hostLog
     h.core.frameCap
     (reroot_sub (fun a ha => reach_stack (mem_pop_contents ha)) (fun a ha => reach_global ha)
-      (fun f hf a hfa => reach_frame (List.dropLast_subset _ hf) hfa)
+      (fun f hf a hfa => reach_frame (List.mem_of_mem_take hf) hfa)
+      (fun a ha => reach_upv ha) (fun a ha => reach_guard' ha))
+
+/-- the epilogue of a failed `run_function`: pop the call stack back to the entry depth -/
+theorem schedEq_takeFrames {s t : VmState} (h : SchedEq s t) (n : Nat) :
+    SchedEq { s with frames := s.frames.take n } { t with frames := t.frames.take n } :=
+  schedEq_reroot h rfl rfl rfl rfl h.core.obs.stack h.core.obs.globals
+    (by show t.frames.take n = s.frames.take n; rw [h.core.obs.frames])
+    h.core.obs.openUpvalues h.core.obs.guards h.core.remaining h.core.dispatches h.core.hostLog
+    h.core.frameCap
+    (reroot_sub (fun a ha => reach_stack ha) (fun a ha => reach_global ha)
+      (fun f hf a hfa => reach_frame (List.mem_of_mem_take hf) hfa)
       (fun a ha => reach_upv ha) (fun a ha => reach_guard' ha))
 
 theorem schedEq_popStack {s t : VmState} (h : SchedEq s t) :
@@ -253,10 +264,7 @@ theorem enterScript_sim (p : Prog) (gas : Nat)
     by_cases c3 : s.frames.length + 2 > s.frameCap
     · have c3' : t.frames.length + 2 > t.frameCap := by omega
       rw [if_pos c3, if_pos c3']
-      exact failAt_execEq (schedEq_pushFrames h [⟨pos, p.bytecode.size - 1, s.stack.count - ar, c⟩]
-        (fun f hf a hfa => by
-          rcases List.mem_singleton.mp hf with rfl
-          exact hc a hfa)) _
+      exact ⟨by show Except.error _ = Except.error _; rw [h.core.obs.frames], h⟩
     have c3' : ¬ t.frames.length + 2 > t.frameCap := by omega
     rw [if_neg c3, if_neg c3']
     have h0 := schedEq_pushFrames h [⟨pos, p.bytecode.size - 1, s.stack.count - ar, c⟩,
@@ -272,9 +280,9 @@ theorem enterScript_sim (p : Prog) (gas : Nat)
     dsimp only at e1 e2
     subst e1
     cases r' with
-    | error e => exact ⟨rfl, e2⟩
+    | error e => exact ⟨rfl, ef ▸ schedEq_takeFrames e2 _⟩
     | ok v =>
-      refine ⟨?_, schedEq_epilogue e2⟩
+      refine ⟨?_, ef ▸ schedEq_epilogue e2 _⟩
       show Except.ok (some t'.stack.pop.2) = Except.ok (some s'.stack.pop.2)
       rw [e2.core.obs.stack]
 
